@@ -55,13 +55,14 @@ def cache_content(ctx):
     pushes = [(bi, t) for bi, t in g.calls() if (t['callee'].get('path') or '').endswith('Vec::<T, A>::push') and len(t['args']) > 1]
     item_push = end_push = None
     item_s = None
+    end_p = q.param(ps, '^renoir::operator::start::binary::BinaryElement<')       # the end-of-side marker handed in by the caller
     for bi, t in pushes:
         term = strip(sym.operand(t['args'][1]))
         v = render(term)
         if term[0] == 'call' and term[1].endswith('StreamElement::<Out>::map') and term[2]:
             item_push = (bi, t)
             item_s = render(strip(term[2][0]))      # the element of the batch being handled (receiver of `.map(wrap)`)
-        elif 'StreamElement::Item(' in v and 'end' in v:
+        elif 'StreamElement::Item(' in v and end_p in v:
             end_push = (bi, t)
     if not item_push or not end_push:
         raise AnchorMissing('process_side: cannot identify the push of the wrapped item and of the end marker')
@@ -75,7 +76,7 @@ def cache_content(ctx):
     ctx.inst('process_side|push(item.map(wrap))', {'body': g.path, 'element': item_s[:80], 'at': item_push[1]['at'], 'conditions': show_dnf(dnf)})
     for c in dnf:
         term = any(a[0] == 'is' and a[1] == item_s and a[2] == 'Terminate' for a in c)
-        if term and not has(c, 'bool', 'side.cached', False):
+        if term and not has(c, 'bool', '.cached', False):
             ctx.viol('%s|terminate-cached' % ps.path, item_push[1]['at'],
                      'process_side can put Terminate into the batch of a cached side (conditions: %s): the replayed cache would end the '
                      'loop after its first round' % show_dnf([c]), None)
@@ -85,7 +86,7 @@ def cache_content(ctx):
                 ctx.viol('%s|conditional-forward' % ps.path, item_push[1]['at'],
                          'process_side forwards a non-Terminate element only under %s' % show_dnf([frozenset(extra)]), None)
     # a non-cached side must still forward Terminate
-    if not any(any(a[0] == 'is' and a[2] == 'Terminate' for a in c) and has(c, 'bool', 'side.cached', False) for c in dnf):
+    if not any(any(a[0] == 'is' and a[2] == 'Terminate' for a in c) and has(c, 'bool', '.cached', False) for c in dnf):
         ctx.viol('%s|terminate-dropped' % ps.path, item_push[1]['at'], 'process_side never forwards Terminate of a non-cached side', None)
     # end marker
     dnf = q.cond_of_block(facts, g, end_push[0])
@@ -130,7 +131,7 @@ def cache_content(ctx):
     for bi, t in cp:
         dnf = q.cond_of_block(facts, ps, bi)
         ctx.inst('process_side|cache.push', {'at': t['at'], 'conditions': show_dnf(dnf)})
-        if not every(dnf, lambda c: has(c, 'bool', 'side.cached', True)):
+        if not every(dnf, lambda c: has(c, 'bool', '.cached', True)):
             ctx.viol('%s|cache-guard' % ps.path, t['at'], 'a batch is stored in the cache of a side that is not cached', None)
     ptr = []
     for bi, blk in enumerate(ps.blocks):
